@@ -7,7 +7,10 @@ pub open spec fn bad_div(e: Exp) -> bool
     match e {
         Exp::Number(_) | Exp::Variable(_) => false,
         Exp::Abs(i) | Exp::Not(i) | Exp::UnOp(_, i) => bad_div(*i),
-        Exp::Min(es) | Exp::Max(es) | Exp::And(es) | Exp::Or(es) => exists|i: int| 0 <= i < es@.len() && bad_div(#[trigger] es@[i]),
+        Exp::Min(es) => exists|i: int| 0 <= i < es@.len() && bad_div(#[trigger] es@[i]),
+        Exp::Max(es) => exists|i: int| 0 <= i < es@.len() && bad_div(#[trigger] es@[i]),
+        Exp::And(es) => exists|i: int| 0 <= i < es@.len() && bad_div(#[trigger] es@[i]),
+        Exp::Or(es) => exists|i: int| 0 <= i < es@.len() && bad_div(#[trigger] es@[i]),
         Exp::Xor(a, b) | Exp::Implies(a, b) | Exp::Iff(a, b) => bad_div(*a) || bad_div(*b),
         Exp::BinOp(op, a, b) => (op is Div && !(*b matches Exp::Number(v) && !ext_eq(fv(v), Ext::Fin(0real)))) || bad_div(*a) || bad_div(*b),
     }
@@ -24,3 +27,32 @@ pub proof fn lemma_bad_div(e: Exp)
         e matches Exp::Iff(a, b) ==> bad_div(e) == (bad_div(*a) || bad_div(*b)),
         e matches Exp::BinOp(op, a, b) ==> bad_div(e) == ((op is Div && !(*b matches Exp::Number(v) && !ext_eq(fv(v), Ext::Fin(0real)))) || bad_div(*a) || bad_div(*b)),
 { reveal_with_fuel(bad_div, 1); }
+// arithmetic fragment: numbers, variables, + - * /, unary minus, abs (no min / max / logic): here "undefined" can only mean a division by zero
+pub open spec fn arith(e: Exp) -> bool
+    decreases e,
+{
+    match e {
+        Exp::Number(_) => true,
+        Exp::Variable(_) => true,
+        Exp::Abs(i) => arith(*i),
+        Exp::UnOp(op, i) => op is Neg && arith(*i),
+        Exp::BinOp(op, a, b) => (op is Add || op is Sub || op is Mul || op is Div) && arith(*a) && arith(*b),
+        _ => false,
+    }
+}
+// without an unsafe division an arithmetic expression with finite constants is defined at every assignment
+pub proof fn lemma_safe_defined(e: Exp, env: Env)
+    requires arith(e), exp_fin(e), !bad_div(e),
+    ensures sem(e, env) is Some,
+    decreases e,
+{
+    lemma_bad_div(e); lemma_exp_fin(e);
+    match e {
+        Exp::Abs(i) => { lemma_safe_defined(*i, env); }
+        Exp::UnOp(_, i) => { lemma_safe_defined(*i, env); }
+        Exp::BinOp(op, a, b) => {
+            lemma_safe_defined(*a, env); lemma_safe_defined(*b, env); lemma_exp_fin(*b);
+        }
+        _ => {}
+    }
+}
